@@ -29,7 +29,7 @@ ASSUMPTIONS = [
     "that filtered fraction records equal unfiltered ones is C10's subject; here the unfiltered run supplies the fractions",
 ]
 SETTINGS: Dict[str, Dict[str, Any]] = {
-    "quick": {"cases": 1500, "cli_cases": 10, "budget_s": 45, "minimums": {"lines_checked": 6000, "nontrivial": 800, "new_year_offset_events": 200, "cli_runs": 5}},
+    "quick": {"cases": 1500, "cli_cases": 48, "budget_s": 45, "minimums": {"lines_checked": 6000, "nontrivial": 800, "new_year_offset_events": 200, "cli_runs": 5}},
     "thorough": {"cases": 60000, "cli_cases": 150, "budget_s": 300, "minimums": {"lines_checked": 250000, "nontrivial": 30000, "new_year_offset_events": 8000, "cli_runs": 100}},
 }
 PROFILES = [
